@@ -39,7 +39,8 @@ PREFIXES = ['', '', 'r', 'R', 'u', 'U']
 def required_cells(tier):
     return (['fail:' + k for k in FAIL_KINDS] + ['prefix:' + (p or 'none') for p in set(PREFIXES)] +
             ['style:google', 'style:freeform', 'open:same-line', 'open:own-line', 'where:func', 'where:method',
-             'where:class', 'where:module', 'where:deco', 'start-line-checks', 'part-offset-checks'])
+             'where:class', 'where:module', 'where:deco', 'start-line-checks', 'part-offset-checks',
+             'blank-lines-before-first-block'])
 
 
 def gen_doctest(rng, uid, fail_kind):
@@ -134,13 +135,19 @@ def gen_module(rng, seed):
         nblocks = rng.randint(1, 3)
         if rng.random() < 0.5:
             body += ['Summary text.', '']
+            if rng.random() < 0.2:
+                body += ['']                # two blank lines under the summary
+        elif rng.random() < 0.5:
+            # blank lines between the opening quotes and the first block / prompt, no summary
+            body += [''] * rng.randint(1, 3)
+            feats.add('blank-lines-before-first-block')
         for b in range(nblocks):
             uid[0] += 1
             kind = rng.choice(FAIL_KINDS)
             L, first, fm = gen_doctest(rng, '%dx%d' % (seed, uid[0]), kind)
             if style == 'google':
                 if rng.random() < 0.3:
-                    body += ['Args:', '    a (int): thing', '']
+                    body += ['Args:', '    a (int): thing', ''] + [''] * rng.choice([0, 0, 1, 2])
                 body += [rng.choice(['Example:', 'Doctest:', 'Examples:'])] + ['    ' + ln if ln else ln for ln in L] + ['']
             else:
                 body += L + ['']
